@@ -1,4 +1,4 @@
-import PlumpyModel.PM.Proof5
+import PlumpyModel.PM.Proof7
 /-!
 # C04 — a kill request is never lost and no live process is unkillable
 
@@ -60,6 +60,54 @@ theorem C04_second_kill_same_action (k : Nat) (c : Cfg) (h : Pending k c) : (kil
   have h1 : c.st.label ≠ .killed := by intro h; rw [h] at hl; simp [terminal, allowed] at hl
   unfold kill
   simp [h1, hl, hkill]
+
+
+/-- **no stale kill**: in every reachable configuration, if a kill is recorded as pending (`_killing` set) then the
+process is KILLED / EXCEPTED or that very action is still the pending interrupt action of the step in flight. -/
+theorem C04_no_stale_killing (P : Prog) (nf : Nat) (evs : List Ev) (i : Nat)
+    (hk : (run P (init nf) evs).killing = some i) : Committed i (run P (init nf) evs) :=
+  (run_killingOk P (init nf) evs (killingOk_init nf) (pausingOk_init nf)).1 i hk
+
+/-- **from every reachable live configuration a further kill() still terminates the process**: outside a step it
+kills at once; inside a step it hands back an action that is the pending kill of the step in flight — which by
+`C04_kill_committed`-style stability (`step_committed`) survives every further event and by `C04_end_of_step_kills`
+kills when the step yields. -/
+theorem C04_always_killable (P : Prog) (nf : Nat) (evs : List Ev)
+    (hl : terminal (run P (init nf) evs).st.label = false) :
+    let c := run P (init nf) evs
+    (c.stepping = false → (kill c).2 = .bool true ∧ ((kill c).1.st.label = .killed ∨ (kill c).1.st.label = .excepted)) ∧
+    (c.stepping = true → ∃ k, (kill c).2 = .action k ∧ Pending k (kill c).1) := by
+  intro c
+  have hl' : terminal c.st.label = false := hl
+  have hko : KillingOk c := (run_killingOk P (init nf) evs (killingOk_init nf) (pausingOk_init nf)).1
+  have hkl : c.st.label ≠ .killed := by intro h; rw [h] at hl; simp [terminal, allowed] at hl
+  have hpend : ∀ i, c.killing = some i → Pending i c := by
+    intro i hi
+    rcases hko i hi with h | h | h
+    · exact absurd h hkl
+    · rw [h] at hl; simp [terminal, allowed] at hl
+    · exact h
+  constructor
+  · intro hs
+    have hnk : c.killing = none := by
+      cases hk : c.killing with
+      | none => rfl
+      | some i => have := (hpend i hk).2.2.2.2.1; rw [hs] at this; cases this
+    exact C04_kill_when_idle c hl' hnk hs
+  · intro hs
+    cases hk : c.killing with
+    | some i =>
+      have hp := hpend i hk
+      refine ⟨i, C04_second_kill_same_action i c hp, ?_⟩
+      have : kill c = (hand c i, .action i) := by unfold kill; simp [hkl, hl', hk]
+      rw [this]; exact hp.keep (hand_keep ..)
+    | none =>
+      have hn := requestInterrupt_new c .kill
+      have hval : (kill c).2 = .action c.actions.length := by
+        unfold kill
+        simp only [hkl, if_false, hl', Bool.false_eq_true, hk, hs, if_true]
+        simp only [hn.1]
+      exact ⟨c.actions.length, hval, kill_commits c _ hl' hk hval⟩
 
 -- non-vacuity: a kill during an asynchronous step is pending, survives a pause and a play, and kills at the end of the step
 section
